@@ -1864,11 +1864,14 @@ impl<'a, E: quiver_core::effects::Effect> Compiler<'a, E> {
             }
             matches!(root, Provenance::Variable(name) if bindings.iter().any(|(n, _)| n == name))
         };
+        // Narrow to what a value that passed the pattern can be (`matched_type`), not to
+        // `result_type`: the nil that widens the latter is the failure verdict, and would leave a
+        // nilable scrutinee looking as if the pattern had accepted nil.
         if !self.is_never(result_type) && !self.is_nil(result_type) && !rebinds_source {
             apply_narrowing(
                 &mut self.scopes,
                 &value_provenance,
-                result_type,
+                matched_type,
                 self.program,
             );
         }
